@@ -8,7 +8,8 @@ def showRes : GetRes → String
   | .panic => "panic"
 
 /-- ops:  `get <name> <pair>*`  → model Get;  `spec <name> <pair>*` → map spec;
-    `each <pair>*` → names/values in order. -/
+    `each <pair>*` → names/values in order;
+    `ciget` / `specci` / `cieach`: the same for caseInsensitive = true (ASCII names). -/
 def handle (args : List String) : String :=
   match args with
   | "get" :: name :: pairs =>
@@ -29,6 +30,30 @@ def handle (args : List String) : String :=
     match pairs.mapM ofHex with
     | some ps =>
       match listEnviron ps with
+      | some l =>
+        match each l with
+        | some nvs => " ".intercalate ("each" :: nvs.map fun (n, v) => toHex n ++ ":" ++ toHex v)
+        | none => "panic"
+      | none => "panic"
+    | none => "bad-op"
+  | "ciget" :: name :: pairs =>
+    match ofHex name, pairs.mapM ofHex with
+    | some n, some ps =>
+      match listEnvironF upperAscii ps with
+      | some l => showRes (getF upperAscii l n)
+      | none => "panic"
+    | _, _ => "bad-op"
+  | "specci" :: name :: pairs =>
+    match ofHex name, pairs.mapM ofHex with
+    | some n, some ps =>
+      match specGetCI ps n with
+      | some v => "val " ++ toHex v
+      | none => "unset"
+    | _, _ => "bad-op"
+  | "cieach" :: pairs =>
+    match pairs.mapM ofHex with
+    | some ps =>
+      match listEnvironF upperAscii ps with
       | some l =>
         match each l with
         | some nvs => " ".intercalate ("each" :: nvs.map fun (n, v) => toHex n ++ ":" ++ toHex v)
